@@ -40,6 +40,7 @@ INFO = {
 }
 
 MANIFEST = {
+    "technique": 'bounded symbolic execution of the real cache code (CrossHair engine + z3): option vectors of writer/reader, file mtimes (stubbed clock) and crash prefix length are solver variables; round-trip clause by native differential',
     "level_text": "Bounded symbolic execution over the variables the test-suite never crosses: option vectors of the "
     "writer and the reader of a cache file, file modification times (stubbed clock, symbolic), and the crash point of an "
     "interrupted write (symbolic prefix length, enumerated exhaustively).  The round-trip clause has no symbolic "
